@@ -24,7 +24,7 @@ pub enum CoseAlg {
 impl CoseAlg {
     pub fn for_key(kind: KeyKind) -> CoseAlg {
         match kind {
-            KeyKind::Rsa1024 | KeyKind::Rsa2048 | KeyKind::Rsa3072 => CoseAlg::Ps256,
+            KeyKind::Rsa1024 | KeyKind::Rsa2047 | KeyKind::Rsa2048 | KeyKind::Rsa3072 => CoseAlg::Ps256,
             KeyKind::P256 | KeyKind::Secp256k1 | KeyKind::BrainpoolP256r1 => CoseAlg::Es256,
             KeyKind::P384 => CoseAlg::Es384,
             KeyKind::P521 => CoseAlg::Es512,
